@@ -1254,6 +1254,22 @@ theorem seqVals_length_up1 (sp : SeqParams) (hup : sp.upward = true) (hincr : sp
         rw [hincr]; apply wrap64_id <;> omega
       rw [hw, ih (n + 1) (by omega) (by omega)]
 
+theorem seqVals_overflow_len (sp : SeqParams) (hup : sp.upward = true) (hincr : sp.incr = 1)
+    (hto : sp.to = maxI64) (k : Nat) (hk : (k : Int) ≤ 1000000) :
+    (seqVals sp (k + 2) (maxI64 - 1)).length = k + 2 := by
+  have c1 : seqCond sp (maxI64 - 1) = true := by
+    simp only [seqCond, hup, hto]; simp; omega
+  have w1 : wrap64 (maxI64 - 1 + sp.incr) = maxI64 := by
+    rw [hincr]; simp [wrap64, maxI64, minI64]
+  have c2 : seqCond sp maxI64 = true := by
+    simp only [seqCond, hup, hto]; simp
+  have w2 : wrap64 (maxI64 + sp.incr) = minI64 := by
+    rw [hincr]; simp [wrap64, maxI64, minI64]
+  rw [seqVals_succ, if_pos c1, w1, seqVals_succ, if_pos c2, w2]
+  simp only [List.length_cons]
+  rw [seqVals_length_up1 sp hup hincr (by rw [hto]; exact Int.le_refl _) k minI64
+    (by rw [hto]; simp only [maxI64, minI64]; omega) (Int.le_refl _)]
+
 theorem altLoop_singletons (f : Nat → Word → Option (List Word)) (rest : List Part)
     (alts : List Word) (hf : ∀ e ∈ alts, ∀ b, f b (e ++ rest) = some [e ++ rest]) :
     ∀ budget, alts.length ≤ budget →
